@@ -278,7 +278,10 @@ def build(spec, env):
         return d.find_replace([{'name': spec['field'], 'patterns': [{'find': spec['find'], 'replace': spec['replace']}]}],
                               resources=sel)
     if k == 'set_type':
-        return d.set_type(spec['field'], resources=sel, regex=False, **copy.deepcopy(spec['options']))
+        kw = copy.deepcopy(spec['options'])
+        if spec.get('on_error'):
+            kw['on_error'] = getattr(d.schema_validator, spec['on_error'])
+        return d.set_type(spec['field'], resources=sel, regex=bool(spec.get('regex', False)), **kw)
     if k == 'validate':
         return d.validate(resources=sel)
     if k == 'filter_rows':
@@ -391,13 +394,56 @@ def need(cond):
         raise Skip()
 
 
+# steps whose `resources` argument may also select SEVERAL resources at once (None = all of them): the fields they name
+# exist in every resource then, possibly with different types
+MULTI_RES_KINDS = {'add_field', 'add_computed', 'rename_fields', 'delete_fields', 'set_type', 'find_replace', 'validate',
+                   'update_schema', 'filter_rows', 'sort_rows', 'unpivot', 'select_fields'}
+
+
+def _referenced_fields(spec):
+    k = spec['k']
+    if k == 'add_computed':
+        import re
+        return list(spec.get('source', [])) + re.findall(r'\{(\w+)\}', str(spec.get('with', '')))
+    if k in ('delete_fields', 'select_fields'):
+        return list(spec['fields'])
+    if k == 'rename_fields':
+        return list(spec['fields'])
+    if k in ('find_replace', 'set_type'):
+        return [spec['field']]
+    if k == 'filter_rows':
+        return [spec['field']] + ([x for e in spec['equals'] for x in e] if spec.get('equals') else [])
+    if k == 'sort_rows':
+        return [spec['key'].strip('{}')]
+    if k == 'unpivot':
+        return [u['name'] for u in spec['unpivot_fields']]
+    return []
+
+
 @st.composite
 def draw_spec(draw, state, kinds, counter):
     """One candidate spec that is plausible for `state`, or None (final validity is decided by running it)."""
     try:
-        return _draw_spec(draw, state, kinds, counter)
+        spec = _draw_spec(draw, state, kinds, counter)
     except Skip:
         return None
+    if spec is not None and spec['k'] in MULTI_RES_KINDS and len(state) >= 2 and 'res' in spec and draw(st.integers(0, 2)) == 0:
+        refs = _referenced_fields(spec)
+        new_names = set(spec['fields'].values()) if spec['k'] == 'rename_fields' else set()
+        rn = spec['res'][0] if isinstance(spec['res'], list) else spec['res']
+        home = next((r for r in state if r['name'] == rn), None)
+        numeric_mix = spec['k'] == 'add_computed' and spec['operation'] in ('sum', 'avg', 'max', 'min', 'multiply')
+
+        def same_kind(res, r):
+            # the step stays well-typed: the field has the type it has in the resource the step was drawn for
+            # (numeric folds may mix integer and number columns - that is what their type inference is for)
+            t = next((f['type'] for f in res['fields'] if f['name'] == r), None)
+            t0 = next((f['type'] for f in home['fields'] if f['name'] == r), None)
+            return t is not None and (t == t0 or (numeric_mix and {t, t0} <= {'integer', 'number'}))
+        if home is not None and all(all(same_kind(res, r) for r in refs) and
+                                    not any(f['name'] in new_names for f in res['fields']) for res in state):
+            spec['res'] = draw(st.sampled_from([None, [r['name'] for r in state]]))
+    return spec
 
 
 def _draw_spec(draw, state, kinds, counter):
@@ -457,6 +503,11 @@ def _draw_spec(draw, state, kinds, counter):
         ints = _by_type(res, ['integer'])
         strs = _by_type(res, ['string'])
         need(ints or strs)
+        pstrs = [x for x in strs if _plain(x)]
+        if len(pstrs) >= 2 and draw(st.integers(0, 2)) == 0:
+            # several text fields retyped at once; text that is not a number is cleared (so every row still conforms)
+            two = draw(st.lists(st.sampled_from(pstrs), min_size=2, max_size=2, unique=True))
+            return {'k': k, 'field': '|'.join(two), 'regex': True, 'options': {'type': 'integer'}, 'on_error': 'clear', 'res': sel}
         if ints and (not strs or draw(st.booleans())):
             return {'k': k, 'field': draw(st.sampled_from(ints)), 'options': {'type': 'number'}, 'res': sel}
         return {'k': k, 'field': draw(st.sampled_from(strs)), 'options': {'type': 'string', 'title': 'T'}, 'res': sel}
